@@ -72,7 +72,8 @@ C02(e) ==
        IF e.k # "parse" \/ ~e.logged THEN TRUE     \* bytes of very large random inputs are not logged
        ELSE LET w == WhyNot(e.pkt) IN
             /\ PrintT("@@CLAUSE|" \o ToString(l) \o "|" \o w)
-            /\ IF e.res \notin {"ok", "err"} \/ (e.res = "ok") = (w = "") THEN TRUE
+            /\ IF e.res \notin {"ok", "err"} /\ w = "" THEN Report("VIOLATION-C02", "a well-formed packet was not accepted: parse " \o e.res)
+               ELSE IF e.res \notin {"ok", "err"} \/ (e.res = "ok") = (w = "") THEN TRUE
                ELSE Report("VIOLATION-C02", IF w = "" THEN "rejected a well-formed packet: " \o e.err
                                             ELSE "accepted a packet that violates: " \o w)
 
